@@ -16,6 +16,7 @@ type aty struct {
 	kind    byte   // 'e' elementary, 'a' array, 't' tuple
 	name    string // elementary type name
 	k       int    // array: 0 = dynamic
+	zero    bool   // dynamic array whose dimension is WRITTEN "[0]" (the parser reads a zero length as dynamic)
 	elem    *aty
 	fields  []*aty
 	sel     bool // leaf (or array of leaves) has a column
@@ -35,6 +36,9 @@ func (t *aty) peel() (*aty, string) {
 		return t, ""
 	}
 	b, suf := t.elem.peel()
+	if t.k == 0 && t.zero {
+		return b, suf + "[0]"
+	}
 	if t.k == 0 {
 		return b, suf + "[]"
 	}
@@ -148,7 +152,7 @@ func (g *abiGen) gen(depth int, noSelArr, inArr bool) *aty {
 		if k > 3 && estWords(e)*k > 200 {
 			k = 1 + r.Intn(3) // keep encodings small: they grow with the product of the dimensions
 		}
-		t := &aty{kind: 'a', k: k, elem: e}
+		t := &aty{kind: 'a', k: k, elem: e, zero: k == 0 && r.Chance(1, 8)}
 		if depth >= 1 && estWords(t) <= 40 && r.Chance(1, 5) {
 			// a second (and sometimes third) array dimension with a different length: T[k][], T[][k], tuple[2][3], ...
 			for d, nd := 0, 1+r.Intn(2); d < nd; d++ {
@@ -162,7 +166,7 @@ func (g *abiGen) gen(depth int, noSelArr, inArr bool) *aty {
 				if t.k != 0 && r.Bool() {
 					k2 = 0
 				}
-				t = &aty{kind: 'a', k: k2, elem: t}
+				t = &aty{kind: 'a', k: k2, elem: t, zero: k2 == 0 && r.Chance(1, 8)}
 			}
 		}
 		if noSelArr && !g.allowT {
@@ -223,6 +227,11 @@ func (g *abiGen) event(maxInputs int) []*aty {
 			// indexed inputs are topics: keep them elementary static
 			t = g.leaf(core.Pick(g.r, elemStatic))
 			t.indexed = true
+		}
+		if !t.indexed && g.r.Chance(1, 20) {
+			// a static element type under a dimension WRITTEN [0], itself the element of a dynamic array: T[0][]
+			lf := g.leaf(core.Pick(g.r, elemStatic))
+			t = &aty{kind: 'a', k: 0, elem: &aty{kind: 'a', k: 0, zero: true, elem: lf}}
 		}
 		ins = append(ins, t)
 	}
